@@ -528,8 +528,28 @@ def explore_shard(prop, seed, shard, n_cases, profile, dialects=("sqlite", "gene
     return viols, obs
 
 
+def well_scoped(prog, db):
+    """A reduction candidate must still be a well-scoped program of the model (dropping a derive
+    must not leave a dangling reference that the compiler would pass to the database as a column)."""
+    # references are checked statically by the model (check_refs); run it on empty tables so that no
+    # data-dependent Unspecified cuts the walk short
+    empty = {t: {"cols": d["cols"], "types": d.get("types"), "rows": []} for t, d in db.items()}
+    for d in (empty, db):
+        try:
+            model.Interp(d).run(prog)
+        except model.ModelError:
+            return False
+        except model.Unspecified:
+            continue
+        except Exception:
+            return False
+    return True
+
+
 def reduce_case(w, prog, db, dialect, prop, symptom):
     def fails_with(p, d):
+        if not well_scoped(p, d):
+            return False
         w.db_open("rdx", grel.db_stmts(d))
         o = run_case(w, p, d, "rdx", dialect)
         return any(pp == prop and ss == symptom for (pp, ss, _) in o.symptoms)
